@@ -347,7 +347,8 @@ impl SemanticState {
         // otherwise, and the generated code cannot have a `mod` and a type of one name
         // side by side either: a path is one or the other.
         for module_path in self.modules.keys() {
-            if !module_path.is_empty() && self.type_registry.get(module_path).is_some() {
+            // (the vftable struct a type will generate is an item as well)
+            if !module_path.is_empty() && self.type_registry.is_item_path(module_path) {
                 anyhow::bail!("`{module_path}` is both a module and an item");
             }
         }
